@@ -52,28 +52,55 @@ theorem M.ofOption_ok_inv {α} {e : Err} {o : Option α} {m m' : Mgr} {a : α}
 theorem M.get_ok_inv {m m' a : Mgr} (h : M.get m = (.ok a, m')) : m = a ∧ m = m' := by
   cases h; exact ⟨rfl, rfl⟩
 
-/-- an outcome that is either a success satisfying `Q` or the model's report that the recorded
-iteration schedule does not fit (`MODEL-SCHEDULE-MISMATCH`, not a behaviour of the code) -/
-def OkOrSched {α} (Q : α → Mgr → Prop) : Except Err α × Mgr → Prop
+/-- an outcome that is either a success satisfying `Q` or an exception satisfying `E` -/
+def OkOr {α} (E : Err → Prop) (Q : α → Mgr → Prop) : Except Err α × Mgr → Prop
   | (.ok a, m') => Q a m'
-  | (.error e, _) => e = .sched
+  | (.error e, _) => E e
 
-theorem OkOrSched.mono {α} {Q Q' : α → Mgr → Prop} (h : ∀ a m, Q a m → Q' a m)
-    {r : Except Err α × Mgr} (hr : OkOrSched Q r) : OkOrSched Q' r := by
+theorem OkOr.mono {α} {E : Err → Prop} {Q Q' : α → Mgr → Prop} (h : ∀ a m, Q a m → Q' a m)
+    {r : Except Err α × Mgr} (hr : OkOr E Q r) : OkOr E Q' r := by
   obtain ⟨r, m⟩ := r
   cases r with
   | ok a => exact h a m hr
   | error e => exact hr
 
-/-- sequencing two steps that can only fail by schedule mismatch -/
-theorem OkOrSched.bind {α β} {x : M α} {f : α → M β} {m : Mgr} {Q : α → Mgr → Prop}
-    {Q' : β → Mgr → Prop} (hx : OkOrSched Q (x m))
-    (hf : ∀ a m1, Q a m1 → OkOrSched Q' (f a m1)) : OkOrSched Q' ((x >>= f) m) := by
+theorem OkOr.monoE {α} {E E' : Err → Prop} {Q : α → Mgr → Prop} (h : ∀ e, E e → E' e)
+    {r : Except Err α × Mgr} (hr : OkOr E Q r) : OkOr E' Q r := by
+  obtain ⟨r, m⟩ := r
+  cases r with
+  | ok a => exact hr
+  | error e => exact h e hr
+
+/-- sequencing -/
+theorem OkOr.bind {α β} {E : Err → Prop} {x : M α} {f : α → M β} {m : Mgr} {Q : α → Mgr → Prop}
+    {Q' : β → Mgr → Prop} (hx : OkOr E Q (x m))
+    (hf : ∀ a m1, Q a m1 → OkOr E Q' (f a m1)) : OkOr E Q' ((x >>= f) m) := by
   rw [M.bind_eq]
   generalize x m = r at hx
   obtain ⟨r, m1⟩ := r
   cases r with
   | ok a => exact hf a m1 hx
   | error e => exact hx
+
+/-- no exception allowed: the call returns normally -/
+theorem OkOr.total {α} {Q : α → Mgr → Prop} {r : Except Err α × Mgr}
+    (h : OkOr (fun _ => False) Q r) : ∃ a m', r = (.ok a, m') ∧ Q a m' := by
+  obtain ⟨r, m⟩ := r
+  cases r with
+  | ok a => exact ⟨a, m, rfl, h⟩
+  | error e => exact h.elim
+
+/-- an outcome that is either a success satisfying `Q` or the model's report that the recorded
+iteration schedule does not fit (`MODEL-SCHEDULE-MISMATCH`, not a behaviour of the code) -/
+abbrev OkOrSched {α} (Q : α → Mgr → Prop) : Except Err α × Mgr → Prop :=
+  OkOr (fun e => e = Err.sched) Q
+
+theorem OkOrSched.mono {α} {Q Q' : α → Mgr → Prop} (h : ∀ a m, Q a m → Q' a m)
+    {r : Except Err α × Mgr} (hr : OkOrSched Q r) : OkOrSched Q' r := OkOr.mono h hr
+
+/-- sequencing two steps that can only fail by schedule mismatch -/
+theorem OkOrSched.bind {α β} {x : M α} {f : α → M β} {m : Mgr} {Q : α → Mgr → Prop}
+    {Q' : β → Mgr → Prop} (hx : OkOrSched Q (x m))
+    (hf : ∀ a m1, Q a m1 → OkOrSched Q' (f a m1)) : OkOrSched Q' ((x >>= f) m) := OkOr.bind hx hf
 
 end DD
